@@ -578,6 +578,237 @@ theorem frame_of_framedB (S : Schema) (fuel : Nat) (hB : framedB S fuel = true) 
   · exact absurd h3 hne
   · exact h3
 
+/-! ### ALL paths at once: a schema-level frame property replaces the per-path condition -/
+
+def allLevels : List Level := [.node, .service, .application, .nic, .folder, .file]
+
+theorem mem_allLevels (lv : Level) : lv ∈ allLevels := by cases lv <;> simp [allLevels]
+
+/-- GLOBAL FRAME PROPERTY of a schema: no two sub-managers under different literal keys of the same static manager can see the
+same level (executable; conservative: `seesB` over-approximates) -/
+def globalFrameB (S : Schema) (fuel : Nat) : Bool :=
+  S.mgrs.all (fun nm => match nm.2 with
+    | .dynamic _ _ _ => true
+    | .static edges => edges.all (fun e => match e.2.2 with
+        | .leaf => true
+        | .sub m1 => edges.all (fun e' => e'.1 == e.1 || (match e'.2.2 with
+            | .leaf => true
+            | .sub m2 => allLevels.all (fun lv => !(seesB S fuel m1 lv && seesB S fuel m2 lv))))))
+
+/-- the path exists in the schema and the inventory and ends at `mEnd` (`pathOKB` without the frame condition) -/
+def pathExistsB (S : Schema) : String → Inv → List Step → String → Bool
+  | m, _, [], mEnd => m == mEnd
+  | m, inv, .lit ks :: rest, mEnd =>
+    match S.mgr m with
+    | some (.static edges) =>
+      match lookupE ks edges with
+      | some (_, .sub m') => pathExistsB S m' inv rest mEnd
+      | _ => false
+    | _ => false
+  | m, inv, .dyn lv k :: rest, mEnd =>
+    match S.mgr m with
+    | some (.dynamic lv' _ _) =>
+      lv' == lv && (match findChild lv k inv.children with
+        | some (c, inv') => pathExistsB S c inv' rest mEnd
+        | none => false)
+    | _ => false
+
+theorem assoc_mem {α} {k : String} {l : List (String × α)} {a : α} (h : assoc k l = some a) : (k, a) ∈ l := by
+  induction l with
+  | nil => simp [assoc] at h
+  | cons e rest ih =>
+    obtain ⟨k', a'⟩ := e
+    simp only [assoc] at h
+    by_cases hk : k = k'
+    · simp only [hk, if_true, Option.some.injEq] at h
+      subst h; simp [hk]
+    · simp only [hk, if_false] at h
+      exact List.mem_cons_of_mem _ (ih h)
+
+/-- `Sees` implies the executable over-approximation, for every fuel -/
+theorem seesB_of_sees (S : Schema) {m : String} {lv : Level} (h : Sees S m lv) : ∀ fuel, seesB S fuel m lv = true := by
+  induction h with
+  | @here m lv ty vs hm =>
+    intro fuel
+    cases fuel with
+    | zero => rfl
+    | succ n => simp [seesB, hm]
+  | @step m m' lv edges k vs hm hk _ ih =>
+    intro fuel
+    cases fuel with
+    | zero => rfl
+    | succ n =>
+      simp only [seesB, hm, List.any_eq_true]
+      exact ⟨_, lookupE_mem hk, by simpa using ih n⟩
+
+/-- along an existing path, the manager it starts from sees the level the path touches -/
+theorem sees_touched (S : Schema) (lvEdit : Level) (mEnd : String) (hend : Sees S mEnd lvEdit) :
+    ∀ (path : List Step) (m : String) (inv : Inv), pathExistsB S m inv path mEnd = true →
+      Sees S m (touched path lvEdit) := by
+  intro path
+  induction path with
+  | nil =>
+    intro m inv hp
+    simp only [pathExistsB, beq_iff_eq] at hp
+    subst hp
+    exact hend
+  | cons st rest ih =>
+    intro m inv hp
+    cases st with
+    | lit ks =>
+      simp only [pathExistsB] at hp
+      cases hm : S.mgr m with
+      | none => simp [hm] at hp
+      | some M =>
+        cases M with
+        | dynamic lv ty vs => simp [hm] at hp
+        | static edges =>
+          simp only [hm] at hp
+          cases hk : lookupE ks edges with
+          | none => simp [hk] at hp
+          | some vt =>
+            obtain ⟨vs0, tgt⟩ := vt
+            cases tgt with
+            | leaf => simp [hk] at hp
+            | sub m' =>
+              simp only [hk] at hp
+              exact Sees.step hm hk (ih m' inv hp)
+    | dyn lv k =>
+      simp only [pathExistsB] at hp
+      cases hm : S.mgr m with
+      | none => simp [hm] at hp
+      | some M =>
+        cases M with
+        | static edges => simp [hm] at hp
+        | dynamic lv' ty vs =>
+          simp only [hm, Bool.and_eq_true, beq_iff_eq] at hp
+          obtain ⟨hlv, _⟩ := hp
+          subst hlv
+          exact Sees.here hm
+
+/-- under the global frame property EVERY existing path satisfies the per-path condition -/
+theorem pathOKB_of_globalFrame (S : Schema) (fuel : Nat) (hG : globalFrameB S fuel = true) (lvEdit : Level) (mEnd : String)
+    (hend : Sees S mEnd lvEdit) :
+    ∀ (path : List Step) (m : String) (inv : Inv), pathExistsB S m inv path mEnd = true →
+      pathOKB S fuel lvEdit m inv path mEnd = true := by
+  intro path
+  induction path with
+  | nil => intro m inv hp; simpa [pathOKB, pathExistsB] using hp
+  | cons st rest ih =>
+    intro m inv hp
+    cases st with
+    | lit ks =>
+      simp only [pathExistsB] at hp
+      simp only [pathOKB]
+      cases hm : S.mgr m with
+      | none => simp [hm] at hp
+      | some M =>
+        cases M with
+        | dynamic lv ty vs => simp [hm] at hp
+        | static edges =>
+          simp only [hm] at hp ⊢
+          cases hk : lookupE ks edges with
+          | none => simp [hk] at hp
+          | some vt =>
+            obtain ⟨vs0, tgt⟩ := vt
+            cases tgt with
+            | leaf => simp [hk] at hp
+            | sub m' =>
+              simp only [hk] at hp ⊢
+              simp only [Bool.and_eq_true]
+              refine ⟨?_, ih m' inv hp⟩
+              -- the sub-manager under `ks` sees the touched level, so (global frame) no sibling does
+              have hsee := seesB_of_sees S (sees_touched S lvEdit mEnd hend rest m' inv hp) fuel
+              simp only [globalFrameB, List.all_eq_true] at hG
+              have h1 := hG _ (assoc_mem hm)
+              simp only [List.all_eq_true] at h1
+              have h2 := h1 _ (lookupE_mem hk)
+              simp only [List.all_eq_true] at h2
+              simp only [siblingsBlindB, List.all_eq_true]
+              intro e' he'
+              have h3 := h2 e' he'
+              simp only [Bool.or_eq_true, beq_iff_eq] at h3 ⊢
+              rcases h3 with h3 | h3
+              · exact Or.inl h3
+              · refine Or.inr ?_
+                cases ht : e'.2.2 with
+                | leaf => rfl
+                | sub m2 =>
+                  simp only [ht, List.all_eq_true] at h3
+                  have := h3 _ (mem_allLevels (touched rest lvEdit))
+                  simpa [hsee] using this
+    | dyn lv k =>
+      simp only [pathExistsB] at hp
+      simp only [pathOKB]
+      cases hm : S.mgr m with
+      | none => simp [hm] at hp
+      | some M =>
+        cases M with
+        | static edges => simp [hm] at hp
+        | dynamic lv' ty vs =>
+          simp only [hm, Bool.and_eq_true, beq_iff_eq] at hp ⊢
+          obtain ⟨hlv, hrest⟩ := hp
+          refine ⟨hlv, ?_⟩
+          cases hf : findChild lv k inv.children with
+          | none => simp [hf] at hrest
+          | some ci =>
+            obtain ⟨c, inv'⟩ := ci
+            simp only [hf] at hrest ⊢
+            exact ih c inv' hrest
+
+/-- ALL PATHS, ALL INVENTORIES, ONE STATEMENT.  In a schema with the global frame property: whatever the inventory, the live
+tree (an instance), and the path from ANY manager `m` (e.g. the simulation root) down to the root manager of a component of
+class `c` that keeps the dynamic manager `md` of level `lv` under its literal key `ks` — registering a new sub-component there
+(`add_request`) keeps the whole tree an instance of the whole inventory with that sub-component added; un-registering one
+(`remove_request`) keeps it an instance of the inventory without it. -/
+theorem C05_any_path_edit_keeps_inst (S : Schema) (vn : VId → Validator) (fuel : Nat) (hG : globalFrameB S fuel = true)
+    (c : String) (edges : List Edge) (hm : S.mgr c = some (.static edges))
+    (ks : Key) (vs0 : Validator) (md : String) (hk : lookupE ks edges = some (vs0, .sub md))
+    (lv : Level) (ty : KeyTy) (vs : Validator) (hmd : S.mgr md = some (.dynamic lv ty vs))
+    (path : List Step) (m : String) (inv : Inv) (kids : Kids) (hinst : Inst S vn m inv kids)
+    (hpath : pathExistsB S m inv path c = true) :
+    (∀ (k : Key) (cNew : String) (invNew : Inv) (v : VId) (kidsNew : Kids), vn v = vs → Inst S vn cNew invNew kidsNew →
+      Inst S vn m (editInv path (fun i => i.addChild lv k cNew invNew) inv)
+        (editTree path (atKey ks (addKey k v (.node kidsNew))) kids)) ∧
+    (∀ (k : Key), Inst S vn m (editInv path (fun i => i.removeChild lv k) inv) (editTree path (atKey ks (removeKey k)) kids)) := by
+  have hsees : Sees S c lv := Sees.step hm hk (Sees.here hmd)
+  -- the frame condition at the site itself, from the global property
+  have hframe : ∀ k' vs' m', k' ≠ ks → lookupE k' edges = some (vs', .sub m') → seesB S fuel m' lv = false := by
+    intro k' vs' m' hne hl
+    have hsee := seesB_of_sees S (Sees.here hmd : Sees S md lv) fuel
+    simp only [globalFrameB, List.all_eq_true] at hG
+    have h1 := hG _ (assoc_mem hm)
+    simp only [List.all_eq_true] at h1
+    have h2 := h1 _ (lookupE_mem hk)
+    simp only [List.all_eq_true] at h2
+    have h3 := h2 _ (lookupE_mem hl)
+    simp only [Bool.or_eq_true, beq_iff_eq] at h3
+    rcases h3 with h3 | h3
+    · exact absurd h3 hne
+    · simp only [List.all_eq_true] at h3
+      have := h3 _ (mem_allLevels lv)
+      simpa [hsee] using this
+  have hok := pathOKB_of_globalFrame S fuel hG lv c hsees path m inv hpath
+  constructor
+  · intro k cNew invNew v kidsNew hv hnew
+    refine C05_deep_edit_keeps_inst S vn fuel lv c _ _ ?_ ?_ path m inv kids hinst hok
+    · intro inv0 kids0 h0
+      exact C05_add_component_keeps_inst S vn hm h0 ks vs0 md hk hmd fuel hframe k cNew invNew v kidsNew hv hnew
+    · intro inv0 lv' k' hne
+      simp only [Inv.addChild, Inv.children]
+      exact findChild_addChildL_other (fun hh => hne hh.1) _ _ _
+  · intro k
+    refine C05_deep_edit_keeps_inst S vn fuel lv c _ _ ?_ ?_ path m inv kids hinst hok
+    · intro inv0 kids0 h0
+      exact C05_remove_component_keeps_inst S vn hm h0 ks vs0 md hk hmd fuel hframe k
+    · intro inv0 lv' k' hne
+      simp only [Inv.removeChild, Inv.children]
+      exact findChild_removeChildL_other (fun hh => hne hh.1) _
+
+/-- (table) the regenerated schema has the global frame property — so `C05_any_path_edit_keeps_inst` applies to every
+inventory, live tree and path of the shipped code, at every dynamic site -/
+theorem C05_gen_global_frame : globalFrameB schema 8 = true := by decide +kernel
+
 /-! ### non-vacuity on the REGENERATED schema: a Computer installs the FTP server, then uninstalls it -/
 
 def exPcInv : Inv := .mk [(.service, "dns-client", "DNSClient", .mk []), (.nic, "i:1", "NIC", .mk []),
@@ -640,4 +871,15 @@ example : dispatchK envAll exKids ["network", "node", "pc", "service", "ftp-serv
 example : (dispatchK envAll (editTree exPath (atKey "service" (addKey "ftp-server" (exVid []) (.node exSvcKids))) exKids)
     ["network", "node", "pc", "service", "ftp-server", "stop"] 0).isReached = true := by decide +kernel
 
+/-- non-vacuity of `C05_any_path_edit_keeps_inst`: the same deep install, now WITHOUT a per-path condition — only "the path
+exists" (decided for this inventory) and the schema-level `C05_gen_global_frame` -/
+theorem exAnyPathInstall_inst : Inst schema exVn rootMgr
+    (editInv exPath (fun i => i.addChild .service "ftp-server" "FTPServer" (.mk [])) exInv)
+    (editTree exPath (atKey "service" (addKey "ftp-server" (exVid []) (.node exSvcKids))) exKids) :=
+  (C05_any_path_edit_keeps_inst schema exVn 8 C05_gen_global_frame "Computer" exPcEdges (by decide +kernel)
+    "service" [.nodeIsOn] "Node._service_request_manager" (by decide +kernel) .service .str [] (by decide +kernel)
+    exPath rootMgr exInv exKids exKids_inst (by decide +kernel)).1
+    "ftp-server" "FTPServer" (.mk []) (exVid []) exSvcKids (by decide +kernel) exSvcKids_inst
+
 end Primaite.Schema
+
